@@ -3,7 +3,7 @@ import itertools, json
 from fractions import Fraction
 import numpy as np
 from harness import votelib as V, eliclib as E, assignlib as A
-from harness.common import pmap, lean_query, guard, fr, to_np
+from harness.common import pmap, lean_query, guard, fr, to_np, safe_judge
 from harness.c01 import chunks
 
 LEVEL = "proof"
@@ -44,6 +44,7 @@ def impl_batch(case):
     return {"results": out}
 
 
+@safe_judge
 def judge(R, it, res, lean):
     P, vals, k = it["P"], it["vals"], it["k"]
     n, m = len(P), len(P[0])
